@@ -129,23 +129,24 @@ def clone(op, t, memory_format=torch.preserve_format):
 
 
 @register_qbytestensor_op([torch.ops.aten.copy_])
-def copy_(op, dest, src):
+def copy_(op, dest, src, non_blocking=False):
     if not isinstance(dest, QBytesTensor):
         # Copying into a standard Tensor: use the dequantized values
-        return op(dest, src.dequantize())
+        return op(dest, src.dequantize(), non_blocking)
     if not isinstance(src, QBytesTensor):
         # Copying from a standard Tensor: quantize it with the destination qtype and scale
         src = SymmetricQuantizer.apply(src, dest.qtype, dest.axis, dest._scale)
     assert dest.qtype == src.qtype
-    dest._data = op(dest._data, src._data)
-    dest._scale = op(dest._scale, src._scale)
+    dest._data = op(dest._data, src._data, non_blocking)
+    dest._scale = op(dest._scale, src._scale, non_blocking)
     return dest
 
 
 @register_qbytestensor_op([torch.ops.aten.div])
-def div(op, input, other):
-    if not is_scalar(other):
-        return qfallback(op, input, other)
+def div(op, input, other, rounding_mode=None):
+    if not is_scalar(other) or rounding_mode is not None:
+        # A rounded division cannot be expressed as a division of the scale
+        return qfallback(op, input, other, rounding_mode=rounding_mode)
     # We just divide the scale
     return QBytesTensor(input.qtype, input.axis, input.size(), input.stride(), input._data, op(input._scale, other))
 
